@@ -224,6 +224,45 @@ pub fn run_c17(s: &mut Sink) {
         }
     }
 
+    // --- C2: the whole-program decoder agrees with the single-slot decoder at every index, in
+    // particular after a slot whose opcode is that of a wide load
+    {
+        let idx = g;
+        g += 1;
+        if s.take(idx) {
+            let mut n = 0u64;
+            let slots: Vec<I> = vec![
+                I::new(0x18, 1, 0, 0, 0x11223344), I::new(0x00, 0, 0, 0, 0x55667788), I::new(0x00, 0xa, 0xb, -2, -1), I::new(0x95, 0, 0, 0, 0),
+                I::new(0xbf, 3, 4, 0, 0), I::new(0x18, 15, 15, -1, -1), I::new(0xff, 15, 15, i16::MIN, i32::MIN), I::new(0x05, 0, 0, 0x1234, 0), I::new(0x7b, 10, 9, -8, 7),
+            ];
+            for a in &slots {
+                for b in &slots {
+                    for c in &slots {
+                        for d in &slots {
+                            let prog = isa::enc(&[*a, *b, *c, *d]);
+                            n += 1;
+                            match catch(|| rbpf::ebpf::to_insn_vec(&prog)) {
+                                Err(m) => s.violation(&format!("ebpf/to_insn_vec/{}", panic_class(&m)), format!("to_insn_vec({}) panicked: {m}", hex(&prog)), json!({"kind":"c17-vec","prog":hex(&prog)})),
+                                Ok(v) => {
+                                    let ok = v.len() == 4 && (0..4).all(|k| {
+                                        let w = I::decode(&prog[k * 8..k * 8 + 8]);
+                                        v[k].opc == w.opc && v[k].dst == w.dst && v[k].src == w.src && v[k].off == w.off && v[k].imm == w.imm && v[k].to_array()[..] == prog[k * 8..k * 8 + 8]
+                                    });
+                                    if !ok {
+                                        s.violation("ebpf/to_insn_vec/differs-from-slot-decoding", format!("to_insn_vec({}) does not decode every slot to its own fields", hex(&prog)), json!({"kind":"c17-vec","prog":hex(&prog)}));
+                                    }
+                                }
+                            }
+                        }
+                    }
+                }
+            }
+            s.count("evaluations", n);
+            s.count("distinct_nontrivial", n);
+            s.done("to_insn_vec vs get_insn on all 4-slot programs over 9 slot values");
+        }
+    }
+
     // --- D: Insn -> bytes -> Insn ---------------------------------------------------------
     for opc in 0..=255u8 {
         let idx = g;
@@ -430,8 +469,12 @@ fn c17_builder(s: &mut Sink, g: &mut u64) {
         for dst in 0..16u8 {
             for src in 0..16u8 {
                 for off in &offs {
-                    // quick: full imm set only for a diagonal of registers
-                    let imm_set: &[i32] = if thorough || dst == src || *off == 0 { imms } else { &imms[..4] };
+                    // full imm set only for a diagonal of registers / offset 0; thorough (all 65536
+                    // offsets): off the diagonal only boundary offsets get more than one immediate
+                    if thorough && dst != src && dst != 0 && src != 0 && (*off as i32).rem_euclid(257) != 0 {
+                        continue;
+                    }
+                    let imm_set: &[i32] = if dst == src || *off == 0 { imms } else { &imms[..4] };
                     for imm in imm_set {
                         let want = I::new(opc, dst, src, *off, *imm);
                         let got = catch(|| {
@@ -526,6 +569,16 @@ pub fn replay_c17(v: &Value) -> Vec<String> {
             let mut a = [0u8; 8];
             a.copy_from_slice(&b);
             c17_check_slot(&mut s, a, idx, &prog);
+        }
+        "c17-vec" => {
+            let prog = unhex(v["prog"].as_str().unwrap());
+            return match catch(|| rbpf::ebpf::to_insn_vec(&prog)) {
+                Err(m) => vec![format!("to_insn_vec panicked: {m}")],
+                Ok(x) => {
+                    let ok = x.len() * 8 == prog.len() && (0..x.len()).all(|k| x[k].to_array()[..] == prog[k * 8..k * 8 + 8]);
+                    if ok { vec![] } else { vec![format!("to_insn_vec({}) does not decode every slot to its own fields", hex(&prog))] }
+                }
+            };
         }
         "c17-insn" => {
             let f = v["insn"].as_array().unwrap();
@@ -904,17 +957,28 @@ fn join_ops(ops: &[Op], sp: Spell, sep: &str, short: bool) -> String {
 }
 
 const C13_REGS: [i128; 9] = [0, 1, 9, 10, 11, 15, 16, 17, 99];
-const C13_OFFS: [i128; 7] = [0, 1, -1, 32767, 32768, -32768, -32769];
-const C13_IMMS: [i128; 9] = [0, 1, -1, 0x7fff_ffff, 0x8000_0000, -0x8000_0000, -0x8000_0001, 0xffff_ffff, 0x1234];
+// the last three of each: far out of range, around 2^63 and 2^64 (must be errors, not wrapped)
+const C13_OFFS: [i128; 10] = [0, 1, -1, 32767, 32768, -32768, -32769, 0x7fff_ffff_ffff_ffff, 0xffff_ffff_ffff_ffff, 0xffff_ffff_ffff_fffc];
+const C13_IMMS: [i128; 13] = [0, 1, -1, 0x7fff_ffff, 0x8000_0000, -0x8000_0000, -0x8000_0001, 0xffff_ffff, 0x1234, 0x7fff_ffff_ffff_ffff, 0x8000_0000_0000_0000, 0xffff_ffff_ffff_ffff, -0xffff_ffff_ffff_ffff];
 const C13_IMM64: [i128; 12] = [0, 1, -1, 0x8000_0000, 0xffff_ffff, 0x1_0000_0000, 0x7fff_ffff_ffff_ffff, -0x7fff_ffff_ffff_ffff, 0x1122_3344_5566_7788, -0x8000_0000, 0xffff_ffff_0000_0000u64 as i128, 0x8000_0000_0000_0001u64 as i128];
 
-fn spell_ok_for(v: i128, sp: Spell) -> bool {
-    // values at or above 2^63 can only be written in hexadecimal (decimal literals are i64);
-    // such spellings have an ambiguous meaning and are left to the totality check (C14)
-    if v >= (1i128 << 63) {
-        return matches!(sp, Spell::Hex | Spell::PlusHex | Spell::HexUpper | Spell::HexLead0);
+/// Is this spelling of this value inside C13's claim for an operand of `bits` width?
+/// A hexadecimal literal at or above 2^63 denotes a 64-bit pattern: meaningful for lddw, but for
+/// a 16/32-bit field its meaning is ambiguous (value or two's complement pattern) - left to the
+/// totality check (C14). A *decimal* literal always denotes its value: for a 16/32-bit field
+/// anything that large is simply out of range; for lddw decimals at or above 2^63 (or below
+/// -2^63) are again left to C14.
+fn spell_ok_for(v: i128, sp: Spell, bits: u32) -> bool {
+    let hexsp = matches!(sp, Spell::Hex | Spell::PlusHex | Spell::HexUpper | Spell::HexLead0);
+    let big = v >= (1i128 << 63) || v < -(1i128 << 63);
+    if !big {
+        return true;
     }
-    true
+    if bits == 64 {
+        hexsp && v >= 0
+    } else {
+        !hexsp
+    }
 }
 
 /// Enumerate all operand lists that match the form of `m` (over the value alphabets).
@@ -1056,7 +1120,8 @@ pub fn run_c13(s: &mut Sink) {
             let has_num = ops.iter().any(|o| matches!(o, Op::N(_) | Op::M(..)));
             let spells: &[Spell] = if !has_num { &[Spell::Dec] } else if thorough || !any_neg_or_big { &asmref::SPELLS_POS } else { &asmref::SPELLS_POS[..4] };
             for sp in spells {
-                if !ops.iter().all(|o| match o { Op::N(v) => spell_ok_for(*v, *sp), _ => true }) {
+                let bits = if m.form == Form::LdImm { 64 } else { 32 };
+                if !ops.iter().all(|o| match o { Op::N(v) => spell_ok_for(*v, *sp, bits), Op::M(_, v) => spell_ok_for(*v, *sp, 32), _ => true }) {
                     continue;
                 }
                 for (sep, short, lead, trail) in [(", ", false, "", ""), (",", true, "  ", " \n"), (",  ", false, "\n\t", "")] {
@@ -1238,7 +1303,8 @@ fn c14_check(s: &mut Sink, text: &str, _class: &str) {
     }
 }
 
-const C14_CHARS: [char; 14] = ['a', 'r', 'x', '0', '1', '9', 'f', '+', '-', ',', '[', ']', ' ', '\n'];
+// 'é' is alphanumeric for the parser (2 bytes in UTF-8), '€' is not (3 bytes)
+const C14_CHARS: [char; 16] = ['a', 'r', 'x', '0', '1', '9', 'f', '+', '-', ',', '[', ']', ' ', '\n', 'é', '€'];
 
 fn c14_tokens() -> Vec<(String, &'static str)> {
     let mut t: Vec<(String, &'static str)> = vec![];
@@ -1261,6 +1327,12 @@ fn c14_tokens() -> Vec<(String, &'static str)> {
     for p in ["+", "-", ",", ", ", "[", "]", " ", "\n"] {
         t.push((p.to_string(), "punct"));
     }
+    // long identifiers, with multi-byte characters at and around "round" byte offsets
+    for n in [15usize, 31, 32, 63, 255] {
+        t.push((format!("{}é{}", "a".repeat(n), "b".repeat(40)), "long-ident"));
+    }
+    t.push(("é".repeat(40), "long-ident"));
+    t.push((format!("add{}", "€"), "non-ascii"));
     t
 }
 
@@ -1269,7 +1341,7 @@ pub fn run_c14(s: &mut Sink) {
     let maxlen = if thorough { 6 } else { 5 };
     let maxtok = if thorough { 5 } else { 4 };
     let toks = c14_tokens();
-    s.meta.insert("alphabet".into(), json!({"characters": C14_CHARS.iter().collect::<String>(), "tokens": toks.iter().map(|t| t.0.clone()).collect::<Vec<_>>()}));
+    s.meta.insert("alphabet".into(), json!({"characters": C14_CHARS.iter().collect::<String>(), "tokens": toks.iter().map(|t| if t.0.len() > 48 { format!("{}...({} bytes)", t.0.chars().take(20).collect::<String>(), t.0.len()) } else { t.0.clone() }).collect::<Vec<_>>()}));
     s.meta.insert("bound".into(), json!({"max_chars": maxlen, "max_tokens": maxtok}));
     // (i) all strings up to maxlen; group = first two characters
     let na = C14_CHARS.len();
